@@ -49,6 +49,7 @@ def _body_of_call(prog, t):
 def hook_sender(R, env, prog, dctx, arm, variant, role_field, rule):
     hk = arm["handlers"][0]
     seen_roles = []
+    _in_forms = [False]
 
     def boolean(t):
         if t[0] == "call" and t[1] in ("std::result::Result::map_or", "std::option::Option::map_or") and len(t[2]) == 3 and t[2][1] == ("const", "bool", False) and t[2][2][0] == "closure":
@@ -58,6 +59,19 @@ def hook_sender(R, env, prog, dctx, arm, variant, role_field, rule):
         if t[0] == "call" and t[1] in ("std::result::Result::is_ok_and", "std::option::Option::is_some_and") and len(t[2]) == 2 and t[2][1][0] == "closure":
             r_ = closure_result(prog, t[2][1], params={2: ("payload", t[2][0], "Ok/Some")})
             return boolean(r_) if r_ is not None else None
+        if t[0] == "call" and t[1] not in EQ and _body_of_call(prog, t) is not None and (_body_of_call(prog, t).j.get("ret_ty") or "") == "bool" and not _in_forms[0]:
+            # a predicate of a value object (`HookSender::resolve(&config, &info.sender).is_staker()`): the test it stands for
+            from engine.analysis import forms as _forms_b
+            _in_forms[0] = True
+            try:
+                for f_ in _forms_b(prog, t, 4):
+                    if f_ != t:
+                        r_ = boolean(f_)
+                        if r_ is not None:
+                            return r_
+            finally:
+                _in_forms[0] = False
+            return None
         if t[0] != "call" or t[1] not in EQ:
             return None
         a, b = t[2][0], t[2][1]
